@@ -26,7 +26,8 @@ SrvA == [addr |-> "A", locs |-> <<"l1", "l2">>, cache |-> "c1", compress |-> "",
 (* ub: the backends of upstream uB: "B" (one server), "B+Ab" (B, and A as a backup), "Bb+A" (the same two addresses with the
    backup flag on the other one) *)
 (* l2: the shape of location l2: "b" (prefix /b), "hosta" (host pike.test and prefixes /a, /b: for /a/... it is then more specific than l1) *)
-Base == [servers |-> <<SrvA>>, l1up |-> "uA", p1 |-> "absent", best |-> "absent", caches |-> {"c1"}, ub |-> "B", l2 |-> "b"]
+(* stores: "none", or "shared": every cache of the configuration persists to one and the same store (one badger directory) *)
+Base == [servers |-> <<SrvA>>, l1up |-> "uA", p1 |-> "absent", best |-> "absent", caches |-> {"c1"}, ub |-> "B", l2 |-> "b", stores |-> "none"]
 SrvB == [SrvA EXCEPT !.addr = "B", !.locs = <<"l2">>, !.cache = "c2"]
 SrvC == [SrvA EXCEPT !.addr = "C", !.locs = <<"l2">>]
 
@@ -45,7 +46,9 @@ K == [k1 |-> Base,
       k13 |-> [Base EXCEPT !.ub = "B+Ab"],
       k14 |-> [Base EXCEPT !.ub = "Bb+A"],
       k15 |-> [Base EXCEPT !.l2 = "hosta"],
-      k16 |-> [Base EXCEPT !.servers = <<[SrvA EXCEPT !.minlen = "100"], SrvB>>, !.caches = {"c1", "c2"}]]   \* k7 with another threshold
+      k16 |-> [Base EXCEPT !.servers = <<[SrvA EXCEPT !.minlen = "100"], SrvB>>, !.caches = {"c1", "c2"}],   \* k7 with another threshold
+      k17 |-> [Base EXCEPT !.servers = <<SrvA, SrvB>>, !.caches = {"c1", "c2"}, !.stores = "shared"],       \* k7, both caches on one store
+      k18 |-> [Base EXCEPT !.stores = "shared"]]                                                            \* k1 with a store
 
 Names == DOMAIN K
 Distinct2 == {p \in Names \X Names : p[1] # p[2]}
@@ -86,7 +89,9 @@ ApplyAll(st, ks) == IF ks = <<>> THEN st ELSE ApplyAll(Apply(st, K[Head(ks)]), T
 ObsOf(st, k) ==
   [servers |-> [a \in DOMAIN st.servers |->
                   [st.servers[a] EXCEPT !.compress = IF @ = "" THEN "default" ELSE st.profiles.p1]],
-   best |-> st.profiles.best, l1up |-> k.l1up, ub |-> k.ub, l2 |-> k.l2]
+   best |-> st.profiles.best, l1up |-> k.l1up, ub |-> k.ub, l2 |-> k.l2,
+   (* a cache that survives keeps its store; the store of a removed cache stays open for the caches that share it *)
+   stores |-> k.stores]
 
 LingeringBest(ks) == K[ks[Len(ks)]].best = "absent" /\ \E i \in 1..(Len(ks) - 1) : K[ks[i]].best # "absent"
 
@@ -109,6 +114,8 @@ CaseOfL(q, gap, late) ==
    stableA |-> \A j \in 1..Len(q) : K[q[j]].servers[1] = K[q[1]].servers[1],
    readd |-> \E a \in 1..Len(q), b \in 1..Len(q), c \in 1..Len(q) :
                a < b /\ b < c /\ Len(K[q[a]].servers) = 2 /\ Len(K[q[b]].servers) = 1 /\ Len(K[q[c]].servers) = 2,
+   (* the settings of an existing cache are restart-only (docs/start.md): persistence is compared only when no update touched them *)
+   persist |-> \A j \in 1..Len(q) : K[q[j]].stores = "shared",
    retained |-> Survives(q, K[q[Len(q)]].servers[1].cache) /\
                 \A j \in 1..Len(q) : K[q[j]].servers[1].cache = K[q[1]].servers[1].cache]
 
@@ -116,7 +123,7 @@ CaseOf(q, gap) == CaseOfL(q, gap, 0)
 
 EmitInit ==
   /\ l = 0
-  /\ LET Q == SetToSeq(Seqs2 \cup (IF IOEnv.TIER = "thorough" THEN Seqs3 ELSE {s \in Seqs3 : s[1] = s[3] /\ s[1] \in {"k1", "k4", "k7", "k9"}}))
+  /\ LET Q == SetToSeq(Seqs2 \cup (IF IOEnv.TIER = "thorough" THEN Seqs3 ELSE {s \in Seqs3 : s[1] = s[3] /\ s[1] \in {"k1", "k4", "k7", "k9", "k18"}}))
          B == SetToSeq(Bursts \X Gaps)
          L == SetToSeq(Lates)
      IN ndJsonSerialize(IOEnv.OUT, [i \in 1..Len(Q) |-> CaseOf(Q[i], -1)] \o [i \in 1..Len(B) |-> CaseOf(B[i][1], B[i][2])]
